@@ -1,3 +1,4 @@
+import SrModel.Proto
 /-!
 # Model of the adaptive sub-increment loop of `PythonTubeSolver.solve`
 (`srlife/structural.py`, the `while cprog < tprog` loop).
@@ -119,5 +120,16 @@ def showRes : Res → String
   | .ok tr => "ok " ++ ",".intercalate (tr.map showAttempt)
   | .fail tr => "raise " ++ ",".intercalate (tr.map showAttempt)
   | .nofuel => "nofuel"
+
+/-- line protocol: `c10 <md> <forced 0|1> <bits>` -/
+def handle : List String → Option String
+  | ["c10", md, forced, bits] =>
+    match md.toNat?, Proto.parseBits bits with
+    | some md, some bs =>
+      if forced == "1" then some (showRes (run md true (oracleOf bs)))
+      else if forced == "0" then some (showRes (run md false (oracleOf bs)))
+      else none
+    | _, _ => none
+  | _ => none
 
 end SrModel.Adaptive
